@@ -2,6 +2,11 @@
 
 package stack
 
+import (
+	"go/parser"
+	"go/token"
+)
+
 // Hooks for the verification harness under /verif. They only give access to
 // unexported functions; they are compiled with -tags verif only and add no
 // behaviour.
@@ -63,4 +68,21 @@ func VerifReadLines(in interface{ Read([]byte) (int, error) }) ([][]byte, error)
 			return out, err
 		}
 	}
+}
+
+// VerifFuncTypes parses src the way cacheAST.loadFile does and returns what
+// getFuncAST(fn, line) selects and what extractArgumentsType makes of it.
+func VerifFuncTypes(src []byte, fn string, line int) (found bool, declName string, declPos int, types []string, ellipsis bool, err error) {
+	fset := token.NewFileSet()
+	parsed, err := parser.ParseFile(fset, "x.go", src, 0)
+	if err != nil {
+		return false, "", 0, nil, false, err
+	}
+	p := &parsedFile{lineToByteOffset: lineToByteOffsets(src), parsed: parsed}
+	d, err := p.getFuncAST(fn, line)
+	if err != nil || d == nil {
+		return false, "", 0, nil, false, err
+	}
+	types, ellipsis = extractArgumentsType(d)
+	return true, d.Name.Name, int(d.Pos()), types, ellipsis, nil
 }
